@@ -17,6 +17,7 @@ Theorems quantify over every byte string (`List UInt8`) — no length bound.
 -/
 import RtcModel.Lemmas.C07Rtp
 import RtcModel.Lemmas.C07Ice
+import RtcModel.Lemmas.C07Dtls
 
 namespace RtcModel.Theorems.C07
 open RtcModel.C07
@@ -132,5 +133,58 @@ theorem noPanic_unwrapRtx (bs : List UInt8) (s : String) : runSlice Ice.unwrapRt
 /-- witness kept from before the fix: the unfixed frame read (`&mut buf[offset..len]` without the length check)
 panics for a 1501-byte frame and a 1500-byte buffer. -/
 example : (loopM (Ice.turnTcpBody 1500 1501) 1502 (0, [1501]) (Buf.ofList []) 0).isPanic = true := by decide +kernel
+
+/-! ## DTLS (src/transports/dtls/{record,handshake,mod}.rs) -/
+
+/-- `DtlsRecord::decode` / `HandshakeMessage::decode` never panic (and do not allocate: `split_to` is zero-copy). -/
+theorem noPanic_dtlsRecordDecode (bs : List UInt8) (s : String) : runBuf Dtls.recordDecode bs ≠ .panic s :=
+  safe_noPanic (Dtls.recordDecode_safe (B := 0) (Q := fun _ _ _ => True) (by omega) (fun _ _ _ => trivial)) s
+theorem noPanic_dtlsHandshakeDecode (bs : List UInt8) (s : String) : runBuf Dtls.handshakeDecode bs ≠ .panic s :=
+  safe_noPanic (Dtls.handshakeDecode_safe (B := 0) (Q := fun _ _ _ => True) (by omega) (fun _ _ _ => trivial)) s
+
+/-- the record loop of `handle_incoming_packet` and the message loop of `process_handshake_payload` terminate on
+every datagram / record payload (each iteration consumes ≥ 13 resp. ≥ 12 bytes or leaves the loop). -/
+theorem noPanic_dtlsRecordWalk (bs : List UInt8) (s : String) : runBuf Dtls.recordWalk bs ≠ .panic s :=
+  safe_noPanic (Dtls.recordWalk_safe _ _) s
+theorem noPanic_dtlsHandshakeWalk (bs : List UInt8) (s : String) : runBuf Dtls.handshakeWalk bs ≠ .panic s :=
+  safe_noPanic (Dtls.handshakeWalk_safe _ _) s
+
+/-- `ClientHello::decode` / `ServerHello::decode` (after the `fix:` commit): total, allocation ≤ |bs|. -/
+theorem noPanic_clientHello (bs : List UInt8) (s : String) : runBuf Dtls.clientHelloDecode bs ≠ .panic s :=
+  safe_noPanic (Dtls.clientHelloDecode_safe _) s
+theorem allocBound_clientHello (bs : List UInt8) : (runBuf Dtls.clientHelloDecode bs).allocs ≤ bs.length := by
+  simpa [runBuf] using safe_allocs (Dtls.clientHelloDecode_safe (Buf.ofList bs))
+theorem noPanic_serverHello (bs : List UInt8) (s : String) : runBuf Dtls.serverHelloDecode bs ≠ .panic s :=
+  safe_noPanic (Dtls.serverHelloDecode_safe _) s
+theorem allocBound_serverHello (bs : List UInt8) : (runBuf Dtls.serverHelloDecode bs).allocs ≤ bs.length := by
+  simpa [runBuf] using safe_allocs (Dtls.serverHelloDecode_safe (Buf.ofList bs))
+
+theorem noPanic_helloVerifyRequest (bs : List UInt8) (s : String) : runBuf Dtls.helloVerifyDecode bs ≠ .panic s :=
+  safe_noPanic (Dtls.helloVerifyDecode_safe _) s
+theorem noPanic_serverKeyExchange (bs : List UInt8) (s : String) : runBuf Dtls.serverKeyExchangeDecode bs ≠ .panic s :=
+  safe_noPanic (Dtls.serverKeyExchangeDecode_safe _) s
+theorem noPanic_clientKeyExchange (bs : List UInt8) (s : String) : runBuf Dtls.clientKeyExchangeDecode bs ≠ .panic s :=
+  safe_noPanic (Dtls.clientKeyExchangeDecode_safe _) s
+theorem noPanic_finished (bs : List UInt8) (s : String) : runBuf Dtls.finishedDecode bs ≠ .panic s :=
+  safe_noPanic (Dtls.finishedDecode_safe _) s
+
+/-- `CertificateMessage::decode`: total; allocation ≤ 8·|bs| (a `Vec<u8>` header of 24 bytes per ≥ 3-byte entry). -/
+theorem noPanic_certificate (bs : List UInt8) (s : String) : runBuf Dtls.certificateDecode bs ≠ .panic s :=
+  safe_noPanic (Dtls.certificateDecode_safe _) s
+theorem allocBound_certificate (bs : List UInt8) : (runBuf Dtls.certificateDecode bs).allocs ≤ 8 * bs.length := by
+  simpa [runBuf] using safe_allocs (Dtls.certificateDecode_safe (Buf.ofList bs))
+
+/-- the ClientHello / ServerHello extension walks of `handle_client_hello` / `handle_server_hello` are total on
+every extension block. (Model tied to the code by reading + live-endpoint exploration only: the loops are inline
+in private async handlers.) -/
+theorem noPanic_clientExtWalk (bs : List UInt8) (s : String) : runBuf Dtls.clientExtWalk bs ≠ .panic s :=
+  safe_noPanic (Dtls.clientExtWalk_safe _) s
+theorem noPanic_serverExtWalk (bs : List UInt8) (s : String) : runBuf Dtls.serverExtWalk bs ≠ .panic s :=
+  safe_noPanic (Dtls.serverExtWalk_safe _) s
+
+/-- non-vacuity / witness kept from before the fix: a 34-byte ClientHello body is now an error, not a panic;
+reading the session-id length without the check (`getU8` on an empty buffer) is the panic the code had. -/
+example : (runBuf Dtls.clientHelloDecode (List.replicate 34 0)).isPanic = false := by decide +kernel
+example : (getU8 (Buf.ofList []) 0).isPanic = true := by decide +kernel
 
 end RtcModel.Theorems.C07
